@@ -436,6 +436,13 @@ pub fn build(
                 .flatten())
             .unwrap_or(semantic.type_registry.pointer_size());
 
+        // Only power-of-two alignments can be represented in the generated code.
+        if !alignment.is_power_of_two() {
+            anyhow::bail!(
+                "alignment {alignment} for type `{resolvee_path}` is not a power of two"
+            );
+        }
+
         // Calculate the minimum required alignment.
         let required_alignment = util::lcm(
             regions
